@@ -155,7 +155,8 @@ func runC09(c *Ctx) {
 	ruleSASLDecode(c)
 	R.Rule("R-helo-before-newsession", "E2", "\"AUTH needs a prior greeting\": the greeted flag (Conn.helo) is cleared again when the greeting's NewSession fails", 1)
 	obHeloFollowsNewSession(c)
-	ruleTypeAssertGuarded(c) // AUTH on a backend without AuthSession is a refusal, not a panic
+	ruleProtocolErrorSites(c) // a malformed exchange is a refusal of AUTH, not a protocol error: it does not use up the connection's error budget
+	ruleTypeAssertGuarded(c)  // AUTH on a backend without AuthSession is a refusal, not a panic
 
 	ruleNoPartialLine(c)
 
